@@ -439,6 +439,9 @@ def _execute(case, rng, l, r, hook):
                 if p in outstanding:
                     outstanding.remove(p)
                 ok = tell_one(case, l, r, emit, p, "tell")
+            elif op[0] == "tell_nth":
+                p = outstanding.pop(int(op[1]))
+                ok = tell_one(case, l, r, emit, p, "tell")
             elif op[0] == "tell_all":
                 batch = list(outstanding)
                 outstanding.clear()
@@ -558,6 +561,11 @@ CORPUS = [
                   ["ask", 3, 1], ["remove_unfinished"], ["ask", 2, 0], ["ask", 2, 1], ["tell_all"], ["ask", 1, 1]]),
     _rect([(-1, 1), (-1, 1)], name="discard_then_wrong_simplex", loss="uniform", fn="const", discard=True, expect="pass",
           script=[["ask", 4, 1], ["tell_all"], ["tell", (0.5, 0.9)], ["ask", 1, 1], ["remove_unfinished"], ["ask", 1, 1]]),
+    # a pending point on the edge shared by two NEW simplices must subdivide both (out-of-order completion, collinear points)
+    _rect([(-1, 1), (-1, 1)], name="pending_point_on_shared_new_edge", loss="uniform", fn="const", expect="pass",
+          script=[["ask", 4, 1], ["tell_all"], ["ask", 4, 1], ["tell_nth", 0], ["ask", 1, 1], ["tell_nth", 0], ["ask", 2, 1]]),
+    _rect([(0, 1), (0, 1), (0, 1)], name="pending_point_on_shared_new_face_3d", loss="uniform", fn="const", expect="pass",
+          script=[["ask", 8, 1], ["tell_all"], ["ask", 5, 1], ["tell_nth", 0], ["ask", 1, 1], ["tell_nth", 1], ["ask", 2, 1]]),
     _rect([(0, 1e-3), (10, 1000), (0, 1)], name="box_aspect_1e6", fn="linear",
           script=[op for _ in range(26) for op in (["ask", 1, 1], ["tell_all"])]),
 ]
